@@ -66,9 +66,10 @@ def settle(max_iter=100000):
         return
 
 
-def pump(until=None, max_iter=1000000):
+def pump(until=None, max_iter=1000000, stay=False):
     """Advance virtual time task by task until `until` (or until nothing is left).
-    Returns True if the lab is quiescent (no task, no deferred call)."""
+    Returns True if the lab is quiescent (no task, no deferred call).  With stay=True the clock is left at the
+    instant of the last activity when the lab becomes quiescent (otherwise it moves on to `until`)."""
     import bacpypes.core as core
     n = 0
     while True:
@@ -79,7 +80,7 @@ def pump(until=None, max_iter=1000000):
         if core.deferredFns:
             continue
         if not tm.tasks:
-            if until is not None and until > clk.now:
+            if until is not None and until > clk.now and not stay:
                 clk.now = until
             return True
         nxt = tm.tasks[0][0]
